@@ -77,6 +77,11 @@ def correspondence(ctx):
             for b in pick:
                 cases.append(f'prof|{prof}|compare|f|b|{hexs(a)}|{hexs(b)}')
             cases.append(f'prof|{prof}|enforce|f|b|{hexs(a)}|')
+    ss_ = structured_strings(ctx, 300 if ctx.tier == 'quick' else 3000, ['filler_ascii', 'filler_2', 'cased', 'cased', 'wide', 'space', 'marks', 'compat'], maxseg=4)
+    for a_, b_ in zip(ss_, ss_[1:] + ss_[:1]):
+        for prof_ in ('nick', 'um', 'op'):
+            cases.append(f'prof|{prof_}|compare|f|b|{hexs(a_)}|{hexs(b_)}')
+            cases.append(f'prof|{prof_}|compare|f|b|{hexs(a_)}|{hexs(a_)}')
     cases += fuzz_cases(ctx, {4, 11})      # coverage-guided search of the tree under check (only when the source changed / thorough)
     res = run_cases(cases, ctx.work)
     known = known_bidi(ctx)
